@@ -98,22 +98,23 @@ Definition eff_iter (i : nat) (s : state) : state :=
   | _ => set_err s
   end.
 
-(* one poll of the task: Receiver::poll_next + loop *)
+(* one poll of the task: Receiver::poll_next + loop.  The ghost flag [epoll] is up from the
+   moment the task is taken from the run queue until it returns Pending / Ready. *)
 Fixpoint poll_loop (f : nat) (i : nat) (s : state) : state :=
   match f with
   | O => set_halted (emit EvDiverge s) true          (* the real task would spin forever *)
   | S f =>
-      if negb (ealive (getn s i)) then updn i (fun n => set_edone n true) s  (* Ready(None) *)
+      if negb (ealive (getn s i)) then
+        updn i (fun n => set_epoll (set_edone n true) false) s              (* Ready(None) *)
       else
         let s := updn i (fun n => set_ereg n true) s in
         if eflag (getn s i) then
-          let s := updn i (fun n => set_epoll (set_eflag n false) true) s in
-          poll_loop f i (updn i (fun n => set_epoll n false) (eff_iter i s))
-        else s                                                             (* Pending *)
+          poll_loop f i (eff_iter i (updn i (fun n => set_eflag n false) s))
+        else updn i (fun n => set_epoll n false) s                          (* Pending *)
   end.
 
 Definition poll_task (i : nat) (s : state) : state :=
-  if edone (getn s i) then s else poll_loop POLL_FUEL i s.
+  if edone (getn s i) then s else poll_loop POLL_FUEL i (updn i (fun n => set_epoll n true) s).
 
 Fixpoint remove_nth (k : nat) (l : list nat) : list nat :=
   match l, k with
